@@ -248,6 +248,11 @@ pub struct Program {
     /// thread 0 is the thread that creates the channel
     pub threads: Vec<ThreadSpec>,
     pub env: Env,
+    /// number of leading operations of thread 0 that run before the other
+    /// threads are started (a sequential prefix that puts the channel into a
+    /// non-initial state)
+    #[serde(default)]
+    pub pre: usize,
 }
 
 impl Program {
